@@ -17,9 +17,9 @@ package join
 import (
 	"context"
 	"fmt"
+	"strings"
 
 	"github.com/cockroachdb/errors/errbase"
-	"github.com/cockroachdb/redact"
 	"github.com/gogo/protobuf/proto"
 )
 
@@ -59,7 +59,17 @@ var _ fmt.Formatter = (*joinError)(nil)
 var _ errbase.SafeFormatter = (*joinError)(nil)
 
 func (e *joinError) Error() string {
-	return redact.Sprint(e).StripMarkers()
+	// The concatenation of the messages, as documented on Join. (Going
+	// through the redactable rendering would escape marker characters and
+	// drop leading, trailing and repeated newlines of the messages.)
+	var b strings.Builder
+	for i, err := range e.errs {
+		if i > 0 {
+			b.WriteByte('\n')
+		}
+		b.WriteString(err.Error())
+	}
+	return b.String()
 }
 
 func (e *joinError) Unwrap() []error {
